@@ -1706,6 +1706,62 @@ def add_computed_value_func (self : Model α) (name : String) (func : Expr α) :
 def set_derived_outputs_whitelist (self : Model α) (whitelist : List String) : Model α := { self with whitelist := whitelist }
 """
 
+GLUE_POP = {
+    "init_population_with_graphobject": (["self", "init_pop"], [
+        "self._assert_not_finalized()",
+        "self._init_pop_dist = {}",
+        "self._array_population = init_pop"]),
+    "set_initial_population": (["self", "distribution", "force"], [
+        "if not force:\n    self._assert_not_finalized()\n    error_msg = 'Cannot set initial population after the model has been stratified'\n"
+        "    assert not self._stratifications, error_msg",
+        "assert isinstance(distribution, dict)",
+        "for k, v in distribution.items():\n    assert k in self._original_compartment_names",
+        "self._init_pop_dist = distribution.copy()",
+        "for idx, comp in enumerate(self._original_compartment_names):\n    if comp not in self._init_pop_dist:\n        self._init_pop_dist[comp] = 0.0"]),
+    "adjust_population_split": (["self", "strat", "dest_filter", "proportions"], [
+        "self._assert_not_finalized()",
+        "msg = f'No stratification {strat} found in model'",
+        "assert strat in [s.name for s in self._stratifications], msg",
+        "model_strat = [s for s in self._stratifications if s.name == strat][0]",
+        "msg = 'All strata must be specified in proportions'",
+        "assert set(model_strat.strata) == set(proportions), msg",
+        "msg = 'Proportions must sum to 1.0'",
+        "np.testing.assert_allclose(sum(proportions.values()), 1.0, err_msg=msg)",
+        "self.tracker.append_action(ActionType.ADJUST_POP_SPLIT, strat=strat, dest_filter=dest_filter, proportions=proportions)"]),
+}
+
+GLUE_POP_LEAN = """
+/-! ### initial population -/
+
+/-- `model.py::CompartmentalModel.init_population_with_graphobject` -/
+def init_population_with_graphobject (self : Model α) (init_pop : List (Expr α)) : Res (Model α) := do
+  _assert_not_finalized self
+  pure { self with initDist := some [], arrayPop := some init_pop }
+
+/-- `model.py::CompartmentalModel.set_initial_population` with `force=False` (the default); `is_dict` is `isinstance(distribution, dict)`;
+missing compartments are appended with 0.0 in the order of the original compartment names -/
+def set_initial_population (self : Model α) (is_dict : Bool) (distribution : List (String × Expr α)) : Res (Model α) := do
+  _assert_not_finalized self
+  guardE (self.strats.length == 0) "Cannot set initial population after the model has been stratified"
+  guardE is_dict "distribution must be a dict"
+  distribution.forM (fun kv => guardE (self.origNames.contains kv.1) "unknown compartment")
+  let _init_pop_dist := self.origNames.foldl (fun (acc : List (String × Expr α)) comp =>
+    if !acc.any (fun kv => kv.1 == comp) then acc ++ [(comp, Expr.const (0 : α))] else acc) distribution
+  pure { self with initDist := some _init_pop_dist }
+
+/-- `model.py::CompartmentalModel.adjust_population_split` for literal proportions; `sum_is_one` is the outcome of the external
+`np.testing.assert_allclose(sum(proportions.values()), 1.0)` (default relative tolerance 1e-7) -/
+def adjust_population_split (self : Model α) (strat : String) (dest_filter : Strata) (proportions : List (String × Expr α)) (sum_is_one : Bool) : Res (Model α) := do
+  _assert_not_finalized self
+  guardE ((self.strats.map (fun s => s.name)).contains strat) "No stratification of this name found in model"
+  match (self.strats.filter (fun s => s.name == strat)).head? with
+  | none => fail "IndexError"
+  | some model_strat =>
+    guardE (sameSet model_strat.strata (proportions.map (·.1))) "All strata must be specified in proportions"
+    guardE sum_is_one "Proportions must sum to 1.0"
+    pure { self with actions := self.actions ++ [.rebalance { strat := strat, destFilter := dest_filter, props := proportions }] }
+"""
+
 def gen_glue_public(tree, methods, out):
     """the public flow-adding methods, `_strata_exist` and `stratify_with` of `CompartmentalModel` and the module function `_validate_flowparam`:
     pinned text, fixed rendering (see `gen_glue`)"""
@@ -1735,6 +1791,17 @@ def gen_glue_public(tree, methods, out):
             k = next((i for i, (a, b_) in enumerate(zip(body, wanted)) if a != b_), min(len(body), len(wanted)))
             raise Untranslatable(f"{fname}: statement {k} is not the expected text: " + (body[k][:160] if k < len(body) else "<missing>"))
     out.append(GLUE_REQUESTS_LEAN)
+    for fname, (args, wanted) in GLUE_POP.items():
+        fn = methods.get(fname)
+        if fn is None:
+            raise Untranslatable(f"CompartmentalModel.{fname} not found")
+        if [a.arg for a in fn.args.args] != args:
+            raise Untranslatable(f"signature of {fname}: " + str([a.arg for a in fn.args.args]))
+        body = [ast.unparse(st) for st in fn.body if not (isinstance(st, ast.Expr) and isinstance(st.value, ast.Constant))]
+        if body != wanted:
+            k = next((i for i, (a, b_) in enumerate(zip(body, wanted)) if a != b_), min(len(body), len(wanted)))
+            raise Untranslatable(f"{fname}: statement {k} is not the expected text: " + (body[k][:160] if k < len(body) else "<missing>"))
+    out.append(GLUE_POP_LEAN)
 
 
 def gen_glue(tree, out, report):
